@@ -231,7 +231,12 @@ def gen_extra(ctx: Ctx):
 
 
 def run(ctx: Ctx):
+    from ..translate import gen as _gen
+    _gen.regenerate(ctx, ["Constants"])
     leanproj.check_theorems(ctx, MODULE, THEOREMS)
+    from .registry import THEOREMS_CONSTTIE
+    # constants tie: the place where the overlap terms are cut (source value, regenerated) is inside the distance range the additivity probes cross
+    leanproj.check_theorems(ctx, "PyseqmVerif.Properties.ConstTie", THEOREMS_CONSTTIE)
     from .registry import THEOREMS_C19B
     leanproj.check_theorems(ctx, "PyseqmVerif.Properties.C19b", THEOREMS_C19B)
     cases = gen_cases(ctx)
